@@ -1,5 +1,5 @@
 (* WireApi.v — the public API of the tower as the generic wire model (Wire.v) instantiated with the
-   tables generated from /repo (Gen/WireSpec.v, Gen/Consts.v): what the client emits, what the
+   tables generated from /repo (Gen/WireSpec.W_v, Gen/Consts.v): what the client emits, what the
    tower's router does with a body, what the tower replies, what the client makes of the reply,
    and the byte strings that get signed.  Definitions only. *)
 From TeosModel Require Import Base Wire.
@@ -9,226 +9,226 @@ Local Open Scope string_scope.
 
 
 (* ---------------- serialising / parsing a message of shape m ---------------- *)
-Definition to_json (m : msg) (v : mval) : json := enc_msg WireSpec.STATUS m v.
-Definition of_json (m : msg) (j : json) : option mval := dec_msg WireSpec.STATUS m j.
-Definition typedb (m : msg) (v : mval) : bool := typed_msgb WireSpec.STATUS m v.
+Definition w_to_json (m : w_msg) (v : w_mval) : w_json := w_enc_msg WireSpec.W_STATUS m v.
+Definition w_of_json (m : w_msg) (j : w_json) : option w_mval := w_dec_msg WireSpec.W_STATUS m j.
+Definition w_typedb (m : w_msg) (v : w_mval) : bool := w_typed_msgb WireSpec.W_STATUS m v.
 
 (* ---------------- client -> tower ---------------- *)
 (* reqwest's RequestBuilder::json(&request): serde_json::to_vec of the prost struct *)
-Definition to_json_client (e : endpoint_spec) (req : mval) : json := to_json (ep_req e) req.
-Definition client_body (e : endpoint_spec) (req : mval) : str := json_print (to_json_client e req).
+Definition w_to_json_client (e : w_endpoint_spec) (req : w_mval) : w_json := w_to_json (w_ep_req e) req.
+Definition w_client_body (e : w_endpoint_spec) (req : w_mval) : w_str := w_json_print (w_to_json_client e req).
 
 (* warp::body::json::<Req>() on the tower *)
-Definition of_json_tower (e : endpoint_spec) (j : json) : option mval := of_json (ep_req e) j.
+Definition w_of_json_tower (e : w_endpoint_spec) (j : w_json) : option w_mval := w_of_json (w_ep_req e) j.
 
 (* field access by JSON name in a struct value *)
-Fixpoint lookup_field (fs : fields) (vs : vals) (name : str) : option val :=
+Fixpoint w_lookup_field (fs : w_fields) (vs : w_vals) (name : w_str) : option w_val :=
   match fs, vs with
-  | FCons n _ r, VCons v vr => if str_eqb n name then Some v else lookup_field r vr name
+  | WFCons n _ r, WVCons v vr => if w_str_eqb n name then Some v else w_lookup_field r vr name
   | _, _ => None
   end.
-Definition field_of (m : msg) (mv : mval) (name : str) : option val :=
+Definition w_field_of (m : w_msg) (mv : w_mval) (name : w_str) : option w_val :=
   match m, mv with
-  | MStruct fs, MVStruct vs => lookup_field fs vs name
+  | WMStruct fs, WMVStruct vs => w_lookup_field fs vs name
   | _, _ => None
   end.
 
 (* The field checks of the four handlers of teos/src/api/http.rs (hand-modelled, validated by the
    correspondence run): `x.is_empty()` -> EMPTY_FIELD, `x.len() != N` -> WRONG_FIELD_SIZE,
    `appointment: None` -> MISSING_FIELD; None = the request is forwarded to the internal API. *)
-Definition check_sized (v : option val) (n : Z) : option Z :=
+Definition w_check_sized (v : option w_val) (n : Z) : option Z :=
   match v with
-  | Some (VBytes []) => Some Consts.ERR_EMPTY_FIELD
-  | Some (VBytes b) => if Z.eqb (Z.of_nat (List.length b)) n then None else Some Consts.ERR_WRONG_FIELD_SIZE
+  | Some (WVBytes []) => Some Consts.ERR_EMPTY_FIELD
+  | Some (WVBytes b) => if Z.eqb (Z.of_nat (List.length b)) n then None else Some Consts.ERR_WRONG_FIELD_SIZE
   | _ => None
   end.
-Definition check_nonempty_str (v : option val) : option Z :=
+Definition w_check_nonempty_str (v : option w_val) : option Z :=
   match v with
-  | Some (VStr []) => Some Consts.ERR_EMPTY_FIELD
+  | Some (WVStr []) => Some Consts.ERR_EMPTY_FIELD
   | _ => None
   end.
-Definition first_err (a b : option Z) : option Z := match a with Some x => Some x | None => b end.
+Definition w_first_err (a b : option Z) : option Z := match a with Some x => Some x | None => b end.
 
 (* names, already evaluated to bytes (no Coq `string` value survives into the extracted model) *)
-Definition n_user_id : str := Eval vm_compute in s2b "user_id".
-Definition n_locator : str := Eval vm_compute in s2b "locator".
-Definition n_signature : str := Eval vm_compute in s2b "signature".
-Definition n_appointment : str := Eval vm_compute in s2b "appointment".
-Definition p_register : str := Eval vm_compute in s2b "/register".
-Definition p_add_appointment : str := Eval vm_compute in s2b "/add_appointment".
-Definition p_get_appointment : str := Eval vm_compute in s2b "/get_appointment".
+Definition w_n_user_id : w_str := Eval vm_compute in w_s2b "user_id".
+Definition w_n_locator : w_str := Eval vm_compute in w_s2b "locator".
+Definition w_n_signature : w_str := Eval vm_compute in w_s2b "signature".
+Definition w_n_appointment : w_str := Eval vm_compute in w_s2b "appointment".
+Definition w_p_register : w_str := Eval vm_compute in w_s2b "/register".
+Definition w_p_add_appointment : w_str := Eval vm_compute in w_s2b "/add_appointment".
+Definition w_p_get_appointment : w_str := Eval vm_compute in w_s2b "/get_appointment".
 
-Definition handler_check (e : endpoint_spec) (req : mval) : option Z :=
-  let m := ep_req e in
-  if str_eqb (ep_path e) p_register then
-    check_sized (field_of m req n_user_id) Consts.USER_ID_LEN
-  else if str_eqb (ep_path e) p_add_appointment then
-    first_err
-      (match field_of m req n_appointment with
-       | Some (VSome (MVStruct avs)) =>
+Definition w_handler_check (e : w_endpoint_spec) (req : w_mval) : option Z :=
+  let m := w_ep_req e in
+  if w_str_eqb (w_ep_path e) w_p_register then
+    w_check_sized (w_field_of m req w_n_user_id) Consts.USER_ID_LEN
+  else if w_str_eqb (w_ep_path e) w_p_add_appointment then
+    w_first_err
+      (match w_field_of m req w_n_appointment with
+       | Some (WVSome (WMVStruct avs)) =>
          match m with
-         | MStruct (FCons _ (KOptMsg am) _) => check_sized (field_of am (MVStruct avs) n_locator) Consts.LOCATOR_LEN
+         | WMStruct (WFCons _ (KOptMsg am) _) => w_check_sized (w_field_of am (WMVStruct avs) w_n_locator) Consts.LOCATOR_LEN
          | _ => None
          end
        | _ => Some Consts.ERR_MISSING_FIELD
        end)
-      (check_nonempty_str (field_of m req n_signature))
-  else if str_eqb (ep_path e) p_get_appointment then
-    first_err (check_sized (field_of m req n_locator) Consts.LOCATOR_LEN)
-              (check_nonempty_str (field_of m req n_signature))
+      (w_check_nonempty_str (w_field_of m req w_n_signature))
+  else if w_str_eqb (w_ep_path e) w_p_get_appointment then
+    w_first_err (w_check_sized (w_field_of m req w_n_locator) Consts.LOCATOR_LEN)
+              (w_check_nonempty_str (w_field_of m req w_n_signature))
   else
-    check_nonempty_str (field_of m req n_signature).
+    w_check_nonempty_str (w_field_of m req w_n_signature).
 
 (* what the router does with a POST whose Content-Length is len and whose body is the JSON value j
    (None = the body is not JSON at all) *)
-Inductive tower_result :=
-| TForward (req : mval)       (* handed to the internal API exactly as parsed *)
-| TReject (code : Z)          (* handler field check: 400 + ApiError with that code *)
-| TBadBody                    (* BodyDeserializeError: 400 + ApiError *)
-| TTooLarge.                  (* content_length_limit: 413, plain text *)
+Inductive w_tower_result :=
+| WTForward (req : w_mval)       (* handed to the internal API exactly as parsed *)
+| WTReject (code : Z)          (* handler field check: 400 + ApiError with that code *)
+| WTBadBody                    (* BodyDeserializeError: 400 + ApiError *)
+| WTTooLarge.                  (* content_length_limit: 413, plain text *)
 
-Definition tower_http (e : endpoint_spec) (len : Z) (j : option json) : tower_result :=
-  if (ep_cap e <? len)%Z then TTooLarge
+Definition w_tower_http (e : w_endpoint_spec) (len : Z) (j : option w_json) : w_tower_result :=
+  if (w_ep_cap e <? len)%Z then WTTooLarge
   else match j with
-       | None => TBadBody
+       | None => WTBadBody
        | Some j =>
-         match of_json_tower e j with
-         | None => TBadBody
-         | Some req => match handler_check e req with Some c => TReject c | None => TForward req end
+         match w_of_json_tower e j with
+         | None => WTBadBody
+         | Some req => match w_handler_check e req with Some c => WTReject c | None => WTForward req end
          end
        end.
 
 (* ---------------- tower -> client ---------------- *)
 (* parse_grpc_response: Ok(r) -> reply::json(&r);  Err(status) -> reply::json(&ApiError{message, code}) *)
-Definition to_json_tower (e : endpoint_spec) (resp : mval) : json := to_json (ep_resp e) resp.
-Definition mk_api_error (message : str) (code : Z) : mval := MVStruct (vlist [VStr message; VNum code]).
-Definition to_json_err (err : mval) : json := to_json WireSpec.TowerApiError err.
+Definition w_to_json_tower (e : w_endpoint_spec) (resp : w_mval) : w_json := w_to_json (w_ep_resp e) resp.
+Definition w_mk_api_error (message : w_str) (code : Z) : w_mval := WMVStruct (w_vlist [WVStr message; WVNum code]).
+Definition w_to_json_err (err : w_mval) : w_json := w_to_json WireSpec.W_TowerApiError err.
 
-Definition match_status (tonic_code : Z) : Z * Z :=
-  match assoc_Z tonic_code WireSpec.MATCH_STATUS with Some r => r | None => WireSpec.MATCH_STATUS_DEFAULT end.
+Definition w_match_status (tonic_code : Z) : Z * Z :=
+  match w_assoc_Z tonic_code WireSpec.W_MATCH_STATUS with Some r => r | None => WireSpec.W_MATCH_STATUS_DEFAULT end.
 (* the reply to a request the internal API refused with that tonic status *)
-Definition tower_error_reply (tonic_code : Z) (message : str) : Z * json :=
-  let (http, code) := match_status tonic_code in (http, to_json_err (mk_api_error message code)).
+Definition w_tower_error_reply (tonic_code : Z) (message : w_str) : Z * w_json :=
+  let (http, code) := w_match_status tonic_code in (http, w_to_json_err (w_mk_api_error message code)).
 
 (* process_post_response::<ApiResponse<T>> or ::<T>, as the client calls it for that endpoint *)
-Definition of_json_client (e : endpoint_spec) (j : json) : creply :=
-  client_decode WireSpec.STATUS (ep_client_wrapped e) WireSpec.API_RESPONSE_ORDER (ep_resp e) WireSpec.ClientApiError j.
+Definition w_of_json_client (e : w_endpoint_spec) (j : w_json) : w_creply :=
+  w_client_decode WireSpec.W_STATUS (w_ep_client_wrapped e) WireSpec.W_API_RESPONSE_ORDER (w_ep_resp e) WireSpec.W_ClientApiError j.
 
 (* ---------------- the messages of the API, field by field ---------------- *)
-Definition mk_register_request (user_id : bytes) : mval := MVStruct (vlist [VBytes user_id]).
-Definition mk_appointment (locator blob : bytes) (to_self_delay : Z) : mval :=
-  MVStruct (vlist [VBytes locator; VBytes blob; VNum to_self_delay]).
-Definition mk_add_appointment_request (locator blob : bytes) (to_self_delay : Z) (signature : str) : mval :=
-  MVStruct (vlist [VSome (mk_appointment locator blob to_self_delay); VStr signature]).
-Definition mk_get_appointment_request (locator : bytes) (signature : str) : mval :=
-  MVStruct (vlist [VBytes locator; VStr signature]).
-Definition mk_get_subscription_info_request (signature : str) : mval := MVStruct (vlist [VStr signature]).
+Definition w_mk_register_request (user_id : w_bytes) : w_mval := WMVStruct (w_vlist [WVBytes user_id]).
+Definition w_mk_appointment (locator blob : w_bytes) (to_self_delay : Z) : w_mval :=
+  WMVStruct (w_vlist [WVBytes locator; WVBytes blob; WVNum to_self_delay]).
+Definition w_mk_add_appointment_request (locator blob : w_bytes) (to_self_delay : Z) (signature : w_str) : w_mval :=
+  WMVStruct (w_vlist [WVSome (w_mk_appointment locator blob to_self_delay); WVStr signature]).
+Definition w_mk_get_appointment_request (locator : w_bytes) (signature : w_str) : w_mval :=
+  WMVStruct (w_vlist [WVBytes locator; WVStr signature]).
+Definition w_mk_get_subscription_info_request (signature : w_str) : w_mval := WMVStruct (w_vlist [WVStr signature]).
 
-Definition mk_register_response (user_id : bytes) (slots start expiry : Z) (signature : str) : mval :=
-  MVStruct (vlist [VBytes user_id; VNum slots; VNum start; VNum expiry; VStr signature]).
-Definition mk_add_appointment_response (locator : bytes) (start_block : Z) (signature : str) (slots expiry : Z) : mval :=
-  MVStruct (vlist [VBytes locator; VNum start_block; VStr signature; VNum slots; VNum expiry]).
-Definition mk_tracker (dispute_txid penalty_txid penalty_rawtx : bytes) : mval :=
-  MVStruct (vlist [VBytes dispute_txid; VBytes penalty_txid; VBytes penalty_rawtx]).
+Definition w_mk_register_response (user_id : w_bytes) (slots start expiry : Z) (signature : w_str) : w_mval :=
+  WMVStruct (w_vlist [WVBytes user_id; WVNum slots; WVNum start; WVNum expiry; WVStr signature]).
+Definition w_mk_add_appointment_response (locator : w_bytes) (start_block : Z) (signature : w_str) (slots expiry : Z) : w_mval :=
+  WMVStruct (w_vlist [WVBytes locator; WVNum start_block; WVStr signature; WVNum slots; WVNum expiry]).
+Definition w_mk_tracker (dispute_txid penalty_txid penalty_rawtx : w_bytes) : w_mval :=
+  WMVStruct (w_vlist [WVBytes dispute_txid; WVBytes penalty_txid; WVBytes penalty_rawtx]).
 (* appointment_data: None | Some(AppointmentData{None}) | Some(AppointmentData{Some(variant i)}) *)
-Definition mk_get_appointment_response (data : val) (status : Z) : mval := MVStruct (vlist [data; VNum status]).
-Definition data_appointment (a : mval) : val := VSome (MVOneof 0 a).
-Definition data_tracker (t : mval) : val := VSome (MVOneof 1 t).
-Definition mk_get_subscription_info_response (slots expiry : Z) (locators : list bytes) : mval :=
-  MVStruct (vlist [VNum slots; VNum expiry; VVec locators]).
+Definition w_mk_get_appointment_response (data : w_val) (status : Z) : w_mval := WMVStruct (w_vlist [data; WVNum status]).
+Definition w_data_appointment (a : w_mval) : w_val := WVSome (WMVOneof 0 a).
+Definition w_data_tracker (t : w_mval) : w_val := WVSome (WMVOneof 1 t).
+Definition w_mk_get_subscription_info_response (slots expiry : Z) (locators : list w_bytes) : w_mval :=
+  WMVStruct (w_vlist [WVNum slots; WVNum expiry; WVVec locators]).
 
 (* ---------------- the byte strings that get signed ---------------- *)
-Definition appointment_to_vec (locator blob : bytes) (to_self_delay : N) : bytes :=
-  layout_encode WireSpec.APPOINTMENT_TO_VEC [LVBytes locator; LVBytes blob; LVNum to_self_delay].
-Definition registration_receipt_to_vec (user_id : bytes) (slots start expiry : N) : bytes :=
-  layout_encode WireSpec.REGISTRATION_RECEIPT_TO_VEC [LVBytes user_id; LVNum slots; LVNum start; LVNum expiry].
-Definition appointment_receipt_to_vec (user_signature : str) (start_block : N) : bytes :=
-  layout_encode WireSpec.APPOINTMENT_RECEIPT_TO_VEC [LVBytes user_signature; LVNum start_block].
+Definition w_appointment_to_vec (locator blob : w_bytes) (to_self_delay : N) : w_bytes :=
+  w_layout_encode WireSpec.W_APPOINTMENT_TO_VEC [WLVBytes locator; WLVBytes blob; WLVNum to_self_delay].
+Definition w_registration_receipt_to_vec (user_id : w_bytes) (slots start expiry : N) : w_bytes :=
+  w_layout_encode WireSpec.W_REGISTRATION_RECEIPT_TO_VEC [WLVBytes user_id; WLVNum slots; WLVNum start; WLVNum expiry].
+Definition w_appointment_receipt_to_vec (user_signature : w_str) (start_block : N) : w_bytes :=
+  w_layout_encode WireSpec.W_APPOINTMENT_RECEIPT_TO_VEC [WLVBytes user_signature; WLVNum start_block].
 
-Definition get_appointment_msg_client (locator : bytes) : bytes :=
-  sign_msg_get_appointment WireSpec.GET_APPOINTMENT_PREFIX_CLIENT locator.
-Definition get_appointment_msg_tower (locator : bytes) : bytes :=
-  sign_msg_get_appointment WireSpec.GET_APPOINTMENT_PREFIX_TOWER locator.
+Definition w_get_appointment_msg_client (locator : w_bytes) : w_bytes :=
+  w_sign_msg_get_appointment WireSpec.W_GET_APPOINTMENT_PREFIX_CLIENT locator.
+Definition w_get_appointment_msg_tower (locator : w_bytes) : w_bytes :=
+  w_sign_msg_get_appointment WireSpec.W_GET_APPOINTMENT_PREFIX_TOWER locator.
 
 (* ---------------- the documented format (README / API docs), pinned by hand ----------------
    The monitor of the check compares what travels on the wire with THIS table, and
    C16_format_as_documented states that the table generated from the code is this one. *)
-Definition Doc_Appointment : msg := Eval vm_compute in
-  MStruct (flist [(s2b "locator", KHex); (s2b "encrypted_blob", KHex); (s2b "to_self_delay", KU32)]).
-Definition Doc_Tracker : msg := Eval vm_compute in
-  MStruct (flist [(s2b "dispute_txid", KHexBE); (s2b "penalty_txid", KHexBE); (s2b "penalty_rawtx", KHex)]).
-Definition Doc_AppointmentData : msg := Eval vm_compute in MFlatOneof (mlist [Doc_Appointment; Doc_Tracker]).
-Definition Doc_ApiError : msg := Eval vm_compute in MStruct (flist [(s2b "error", KStr); (s2b "error_code", KU8)]).
-Definition Doc_ENDPOINTS : list (str * msg * msg * Z) := Eval vm_compute in
-  [ (s2b "/register",
-     MStruct (flist [(s2b "user_id", KHex)]),
-     MStruct (flist [(s2b "user_id", KHex); (s2b "available_slots", KU32); (s2b "subscription_start", KU32);
-                     (s2b "subscription_expiry", KU32); (s2b "subscription_signature", KStr)]),
+Definition WDoc_Appointment : w_msg := Eval vm_compute in
+  WMStruct (w_flist [(w_s2b "locator", KHex); (w_s2b "encrypted_blob", KHex); (w_s2b "to_self_delay", KU32)]).
+Definition WDoc_Tracker : w_msg := Eval vm_compute in
+  WMStruct (w_flist [(w_s2b "dispute_txid", KHexBE); (w_s2b "penalty_txid", KHexBE); (w_s2b "penalty_rawtx", KHex)]).
+Definition WDoc_AppointmentData : w_msg := Eval vm_compute in WMFlatOneof (w_mlist [WDoc_Appointment; WDoc_Tracker]).
+Definition WDoc_ApiError : w_msg := Eval vm_compute in WMStruct (w_flist [(w_s2b "error", KStr); (w_s2b "error_code", KU8)]).
+Definition WDoc_ENDPOINTS : list (w_str * w_msg * w_msg * Z) := Eval vm_compute in
+  [ (w_s2b "/register",
+     WMStruct (w_flist [(w_s2b "user_id", KHex)]),
+     WMStruct (w_flist [(w_s2b "user_id", KHex); (w_s2b "available_slots", KU32); (w_s2b "subscription_start", KU32);
+                     (w_s2b "subscription_expiry", KU32); (w_s2b "subscription_signature", KStr)]),
      87%Z);
-    (s2b "/add_appointment",
-     MStruct (flist [(s2b "appointment", KOptMsg Doc_Appointment); (s2b "signature", KStr)]),
-     MStruct (flist [(s2b "locator", KHex); (s2b "start_block", KU32); (s2b "signature", KStr);
-                     (s2b "available_slots", KU32); (s2b "subscription_expiry", KU32)]),
+    (w_s2b "/add_appointment",
+     WMStruct (w_flist [(w_s2b "appointment", KOptMsg WDoc_Appointment); (w_s2b "signature", KStr)]),
+     WMStruct (w_flist [(w_s2b "locator", KHex); (w_s2b "start_block", KU32); (w_s2b "signature", KStr);
+                     (w_s2b "available_slots", KU32); (w_s2b "subscription_expiry", KU32)]),
      2048%Z);
-    (s2b "/get_appointment",
-     MStruct (flist [(s2b "locator", KHex); (s2b "signature", KStr)]),
-     MStruct (flist [(s2b "appointment", KOptMsg Doc_AppointmentData); (s2b "status", KStatus)]),
+    (w_s2b "/get_appointment",
+     WMStruct (w_flist [(w_s2b "locator", KHex); (w_s2b "signature", KStr)]),
+     WMStruct (w_flist [(w_s2b "appointment", KOptMsg WDoc_AppointmentData); (w_s2b "status", KStatus)]),
      178%Z);
-    (s2b "/get_subscription_info",
-     MStruct (flist [(s2b "signature", KStr)]),
-     MStruct (flist [(s2b "available_slots", KU32); (s2b "subscription_expiry", KU32); (s2b "locators", KVecHex)]),
+    (w_s2b "/get_subscription_info",
+     WMStruct (w_flist [(w_s2b "signature", KStr)]),
+     WMStruct (w_flist [(w_s2b "available_slots", KU32); (w_s2b "subscription_expiry", KU32); (w_s2b "locators", KVecHex)]),
      127%Z) ].
-Definition Doc_STATUS_NAMES : list (Z * str) := Eval vm_compute in
-  [(0%Z, s2b "not_found"); (1%Z, s2b "being_watched"); (2%Z, s2b "dispute_responded")].
-Definition Doc_STATUS : status_table := Eval vm_compute in
-  {| st_variants := [(s2b "NotFound", 0%Z); (s2b "BeingWatched", 1%Z); (s2b "DisputeResponded", 2%Z)];
-     st_from_i32 := [(1%Z, s2b "BeingWatched"); (2%Z, s2b "DisputeResponded")];
-     st_from_i32_default := s2b "NotFound";
-     st_from_str := [(s2b "being_watched", s2b "BeingWatched"); (s2b "dispute_responded", s2b "DisputeResponded");
-                     (s2b "not_found", s2b "NotFound")];
-     st_display := [(s2b "BeingWatched", s2b "being_watched"); (s2b "DisputeResponded", s2b "dispute_responded");
-                    (s2b "NotFound", s2b "not_found")] |}.
-Definition Doc_APPOINTMENT_TO_VEC : layout := Eval vm_compute in
-  [(s2b "locator", LFixed 16); (s2b "encrypted_blob", LVar); (s2b "to_self_delay", LBE32)].
-Definition Doc_REGISTRATION_RECEIPT_TO_VEC : layout := Eval vm_compute in
-  [(s2b "user_id", LFixed 33); (s2b "available_slots", LBE32); (s2b "subscription_start", LBE32);
-   (s2b "subscription_expiry", LBE32)].
-Definition Doc_APPOINTMENT_RECEIPT_TO_VEC : layout := Eval vm_compute in [(s2b "user_signature", LVar); (s2b "start_block", LBE32)].
+Definition WDoc_STATUS_NAMES : list (Z * w_str) := Eval vm_compute in
+  [(0%Z, w_s2b "not_found"); (1%Z, w_s2b "being_watched"); (2%Z, w_s2b "dispute_responded")].
+Definition WDoc_STATUS : w_status_table := Eval vm_compute in
+  {| w_st_variants := [(w_s2b "NotFound", 0%Z); (w_s2b "BeingWatched", 1%Z); (w_s2b "DisputeResponded", 2%Z)];
+     w_st_from_i32 := [(1%Z, w_s2b "BeingWatched"); (2%Z, w_s2b "DisputeResponded")];
+     w_st_from_i32_default := w_s2b "NotFound";
+     w_st_from_str := [(w_s2b "being_watched", w_s2b "BeingWatched"); (w_s2b "dispute_responded", w_s2b "DisputeResponded");
+                     (w_s2b "not_found", w_s2b "NotFound")];
+     w_st_display := [(w_s2b "BeingWatched", w_s2b "being_watched"); (w_s2b "DisputeResponded", w_s2b "dispute_responded");
+                    (w_s2b "NotFound", w_s2b "not_found")] |}.
+Definition WDoc_APPOINTMENT_TO_VEC : w_layout := Eval vm_compute in
+  [(w_s2b "locator", WLFixed 16); (w_s2b "encrypted_blob", WLVar); (w_s2b "to_self_delay", WLBE32)].
+Definition WDoc_REGISTRATION_RECEIPT_TO_VEC : w_layout := Eval vm_compute in
+  [(w_s2b "user_id", WLFixed 33); (w_s2b "available_slots", WLBE32); (w_s2b "subscription_start", WLBE32);
+   (w_s2b "subscription_expiry", WLBE32)].
+Definition WDoc_APPOINTMENT_RECEIPT_TO_VEC : w_layout := Eval vm_compute in [(w_s2b "user_signature", WLVar); (w_s2b "start_block", WLBE32)].
 
-Definition doc_endpoint (e : endpoint_spec) : str * msg * msg * Z := (ep_path e, ep_req e, ep_resp e, ep_cap e).
+Definition w_doc_endpoint (e : w_endpoint_spec) : w_str * w_msg * w_msg * Z := (w_ep_path e, w_ep_req e, w_ep_resp e, w_ep_cap e).
 
 (* the documented emission of a request / reply / error, used by the monitor *)
-Definition doc_to_json (m : msg) (v : mval) : json := enc_msg Doc_STATUS m v.
+Definition w_doc_to_json (m : w_msg) (v : w_mval) : w_json := w_enc_msg WDoc_STATUS m v.
 
 (* ---------------- entry points of the OCaml driver (coq/extraction/drv_wire.ml) ---------------- *)
-Definition wire_messages : list (str * msg) := Eval vm_compute in
-  (WireSpec.MESSAGES ++ [(s2b "TowerApiError", WireSpec.TowerApiError); (s2b "ClientApiError", WireSpec.ClientApiError)])%list.
-Definition wire_endpoints : list endpoint_spec := WireSpec.ENDPOINTS.
-Definition wire_enc : msg -> mval -> json := to_json.
-Definition wire_dec : msg -> json -> option mval := of_json.
-Definition wire_typed : msg -> mval -> bool := typedb.
-Definition wire_print : json -> str := json_print.
-Definition wire_doc_enc : msg -> mval -> json := doc_to_json.
-Definition wire_doc_endpoints : list (str * msg * msg * Z) := Doc_ENDPOINTS.
-Definition wire_doc_api_error : msg := Doc_ApiError.
-Definition wire_tower_api_error : msg := WireSpec.TowerApiError.
-Definition wire_tower_http : endpoint_spec -> Z -> option json -> tower_result := tower_http.
-Definition wire_tower_error_reply : Z -> str -> Z * json := tower_error_reply.
-Definition wire_client_decode : endpoint_spec -> json -> creply := of_json_client.
-Definition wire_hex_encode : bytes -> str := hex_encode.
-Definition wire_hex_decode : str -> option bytes := hex_decode.
-Definition wire_behex_encode : bytes -> str := behex_encode.
-Definition wire_behex_decode : str -> option bytes := behex_decode.
-Definition wire_appointment_to_vec := appointment_to_vec.
-Definition wire_registration_receipt_to_vec := registration_receipt_to_vec.
-Definition wire_appointment_receipt_to_vec := appointment_receipt_to_vec.
-Definition wire_doc_appointment_to_vec (l b : bytes) (t : N) : bytes :=
-  layout_encode Doc_APPOINTMENT_TO_VEC [LVBytes l; LVBytes b; LVNum t].
-Definition wire_doc_registration_receipt_to_vec (u : bytes) (a s e : N) : bytes :=
-  layout_encode Doc_REGISTRATION_RECEIPT_TO_VEC [LVBytes u; LVNum a; LVNum s; LVNum e].
-Definition wire_doc_appointment_receipt_to_vec (s : str) (b : N) : bytes :=
-  layout_encode Doc_APPOINTMENT_RECEIPT_TO_VEC [LVBytes s; LVNum b].
-Definition wire_get_appointment_msg_client := get_appointment_msg_client.
-Definition wire_get_appointment_msg_tower := get_appointment_msg_tower.
-Definition doc_get_appointment_prefix : str := Eval vm_compute in s2b "get appointment ".
-Definition wire_doc_get_appointment_msg (l : bytes) : bytes := (doc_get_appointment_prefix ++ hex_encode l)%list.
+Definition wire_messages : list (w_str * w_msg) := Eval vm_compute in
+  (WireSpec.W_MESSAGES ++ [(w_s2b "TowerApiError", WireSpec.W_TowerApiError); (w_s2b "ClientApiError", WireSpec.W_ClientApiError)])%list.
+Definition wire_endpoints : list w_endpoint_spec := WireSpec.W_ENDPOINTS.
+Definition wire_enc : w_msg -> w_mval -> w_json := w_to_json.
+Definition wire_dec : w_msg -> w_json -> option w_mval := w_of_json.
+Definition wire_typed : w_msg -> w_mval -> bool := w_typedb.
+Definition wire_print : w_json -> w_str := w_json_print.
+Definition wire_doc_enc : w_msg -> w_mval -> w_json := w_doc_to_json.
+Definition wire_doc_endpoints : list (w_str * w_msg * w_msg * Z) := WDoc_ENDPOINTS.
+Definition wire_doc_api_error : w_msg := WDoc_ApiError.
+Definition wire_tower_api_error : w_msg := WireSpec.W_TowerApiError.
+Definition wire_tower_http : w_endpoint_spec -> Z -> option w_json -> w_tower_result := w_tower_http.
+Definition wire_tower_error_reply : Z -> w_str -> Z * w_json := w_tower_error_reply.
+Definition wire_client_decode : w_endpoint_spec -> w_json -> w_creply := w_of_json_client.
+Definition wire_hex_encode : w_bytes -> w_str := w_hex_encode.
+Definition wire_hex_decode : w_str -> option w_bytes := w_hex_decode.
+Definition wire_behex_encode : w_bytes -> w_str := w_behex_encode.
+Definition wire_behex_decode : w_str -> option w_bytes := w_behex_decode.
+Definition wire_appointment_to_vec := w_appointment_to_vec.
+Definition wire_registration_receipt_to_vec := w_registration_receipt_to_vec.
+Definition wire_appointment_receipt_to_vec := w_appointment_receipt_to_vec.
+Definition wire_doc_appointment_to_vec (l b : w_bytes) (t : N) : w_bytes :=
+  w_layout_encode WDoc_APPOINTMENT_TO_VEC [WLVBytes l; WLVBytes b; WLVNum t].
+Definition wire_doc_registration_receipt_to_vec (u : w_bytes) (a s e : N) : w_bytes :=
+  w_layout_encode WDoc_REGISTRATION_RECEIPT_TO_VEC [WLVBytes u; WLVNum a; WLVNum s; WLVNum e].
+Definition wire_doc_appointment_receipt_to_vec (s : w_str) (b : N) : w_bytes :=
+  w_layout_encode WDoc_APPOINTMENT_RECEIPT_TO_VEC [WLVBytes s; WLVNum b].
+Definition wire_get_appointment_msg_client := w_get_appointment_msg_client.
+Definition wire_get_appointment_msg_tower := w_get_appointment_msg_tower.
+Definition w_doc_get_appointment_prefix : w_str := Eval vm_compute in w_s2b "get appointment ".
+Definition wire_doc_get_appointment_msg (l : w_bytes) : w_bytes := (w_doc_get_appointment_prefix ++ w_hex_encode l)%list.
